@@ -27,9 +27,9 @@ func init() {
 			}
 			return map[string]string{
 				"IsValidIPString / IsValidIPPortString, free strings": "every byte string of length 0.." + n + " (all 256 values per byte)",
-				"IPv6 shape family":             "0..9 hex fields, optional '::' at every gap (incl. leading/trailing), optional dotted-quad tail, optional %zone of one arbitrary byte; all digits symbolic (quick: fields are 1 decimal digit; thorough: hex digits of any case, one field 2..5 digits wide, first octet 1..3 digits)",
+				"IPv6 shape family":             "0..9 hex fields, optional '::' at every gap (incl. leading/trailing), optional dotted-quad tail, optional %zone of one arbitrary byte; all digits symbolic (quick: fields are 1 decimal digit; thorough: the first field and one field of width 2..5 (any position) are hex digits of any case, the others decimal; first octet 1..3 digits)",
 				"addr:port shapes":              "'[' 0..4 arbitrary bytes ']:' port, 'd.d.d.d:' port, '[h::h%z]:' port; port = one of {'', 0, 655, 6553, 65535, 9999} followed by 0..2 arbitrary bytes",
-				"long ports":                    "'1.2.3.4:' or '[::1]:' followed by 1..7 (thorough 1..24) arbitrary decimal digits, or by 0..3 zeros + the leading digits of 2^16/2^31/2^32/2^63/2^64 + five arbitrary digits (every value within 10^5 of those powers, where an accumulator of that width wraps); reference: the real strconv.ParseUint",
+				"long ports":                    "'1.2.3.4:' or '[::1]:' followed by 1..7 (thorough 1..10) arbitrary decimal digits, or by 0..3 zeros + the leading digits of 2^16/2^31/2^32/2^63/2^64 + five arbitrary digits (every value within 10^5 of those powers, where an accumulator of that width wraps); reference: the real strconv.ParseUint",
 				"IsValidHostnameLabel":          "every byte string of length 0..65",
 				"IsValidHostname, free strings": "every ASCII string of length 0.." + h + " without an 'xn--' label, through the real idna.ToASCII",
 				"IsValidHostname, IDN lengths":  "29..32 labels 'я' (3k raw / 8k punycode bytes) or 3..5 labels of 40 'а' (81k raw bytes, short punycode) + a final label 'c'+one arbitrary ASCII byte, through the real idna.ToASCII",
